@@ -116,6 +116,7 @@ def run(ctx, rep):
     rng = ctx.rng('gen')
     n = 700 if ctx.quick else 6000
     progs = PG.gen_programs(rng, n, tainted=False)
+    progs += PG.gen_programs(ctx.rng('unres2'), 100 if ctx.quick else 1000, tainted=False, second_unresolvable=True)
     rep.rule = ('programs of the forwarding grammar (untainted): wrapper signatures with <=2 named parameters and a star, '
                 'callees from U(2), 1-2 forwarding calls with 0-2 literal positionals / keyword names / own star arguments, '
                 '11 statement contexts x 6 callee resolution routes (global, closure, attribute chain, self.method, parameter via partial, '
